@@ -24,7 +24,7 @@ FAMILY_VARIANTS = {
 
 # back11 accepts a subset of the declarations (no sm-internal tables, no const events through chain rows, no
 # exit-point rows with action+guard): the families it compiles -- "back11 where it accepts the same declarations"
-B11_FAMS = ["conflict_flat", "nest_inactive", "queue_flat", "queue_nested", "defer_basic", "defer_action", "completion_chain",
+B11_FAMS = ["ids_mixed_none", "ids_mixed_always", "ids_mixed_shallow", "conflict_flat", "nest_inactive", "queue_flat", "queue_nested", "defer_basic", "defer_action", "completion_chain",
             "blocking", "flags", "storage", "fork_entry", "history_none", "history_always", "history_shallow", "serial_nested",
             "fe_player", "fe_conflict"]
 
@@ -52,7 +52,7 @@ def jobs(families, profiles, quick, thorough, variants=None, mode="lockstep"):
 
 
 STRUCT = ["conflict_flat", "conflict_ortho", "order_rows", "nest2_mixed", "nest3"]
-COMMON_FAMS = ["conflict_flat", "conflict_ortho", "order_rows", "nest2_mixed", "nest3", "nest_inactive", "noevent", "exit_points",
+COMMON_FAMS = ["ids_mixed_none", "ids_mixed_always", "ids_mixed_shallow", "conflict_flat", "conflict_ortho", "order_rows", "nest2_mixed", "nest3", "nest_inactive", "noevent", "exit_points",
                "history_none", "history_always", "history_shallow", "queue_flat", "queue_nested", "blocking", "flags",
                "completion_chain"]
 
@@ -65,14 +65,15 @@ PROPS = {
                 "consulted >= 2 guards; distinct = distinct full-trace hash per (family, variant)",
     },
     "C02": {
-        "jobs": jobs(["order_rows", "nest2_mixed", "nest3", "fork_entry", "history_always"], ["plain", "lifecycle"], 800, 40000, variants=ALLV),
+        "jobs": jobs(["order_rows", "nest2_mixed", "nest3", "fork_entry", "history_always", "ids_mixed_none", "ids_mixed_always"],
+                     ["plain", "lifecycle"], 800, 40000, variants=ALLV),
         "nontrivial": ["transition"],
         "rule": "plans of events and stop/start cycles; lockstep compares every exit / action / entry record (order, event, state) and the "
                 "configuration after each op; non-trivial = at least one external transition was taken; distinct = full-trace hash",
     },
     "C03": {
         "jobs": jobs(["conflict_ortho", "nest2_mixed", "nest3", "nest_inactive", "fork_entry", "exit_points", "history_always", "flags",
-                      "completion_chain"], ["lifecycle"], 800, 40000, variants=ALLV)
+                      "completion_chain", "ids_mixed_none", "ids_mixed_shallow"], ["lifecycle"], 800, 40000, variants=ALLV)
                 + jobs(["queue_nested", "nest2_mixed"], ["queue"], 600, 30000, variants=ALLV)
                 + jobs(["nest2_mixed"], ["reentrant"], 300, 3000, variants=["B", "M"]),
         "nontrivial": ["stopstart"],
@@ -104,12 +105,13 @@ PROPS = {
                 "occurred in the run; distinct = full-trace hash",
     },
     "C07": {
-        "jobs": jobs(["nest2_mixed", "nest3", "nest_inactive"], ["plain", "posts"], 1000, 50000, variants=ALLV),
+        "jobs": jobs(["nest2_mixed", "nest3", "nest_inactive", "ids_mixed_none"], ["plain", "posts"], 1000, 50000, variants=ALLV),
         "nontrivial": ["nested"],
         "rule": "plans on machines of depth 2-3; non-trivial = a dispatch invoked behaviours of >= 2 nesting levels; distinct = full-trace hash",
     },
     "C08": {
-        "jobs": jobs(["history_none", "history_always", "history_shallow"], ["plain", "lifecycle", "posts"], 800, 40000, variants=ALLV),
+        "jobs": jobs(["history_none", "history_always", "history_shallow", "ids_mixed_none", "ids_mixed_always", "ids_mixed_shallow"],
+                     ["plain", "lifecycle", "posts"], 800, 40000, variants=ALLV),
         "nontrivial": ["reentry"],
         "rule": "enter / move / exit cycles of a 3-region sub-machine under the three history policies, entered normally, by direct entry "
                 "and by fork; history memory probed after every op; non-trivial = the sub-machine was re-entered at least once",
